@@ -4,6 +4,7 @@ import (
 	"fmt"
 	"reflect"
 	"sort"
+	"strings"
 
 	"github.com/go-kid/ioc/container"
 
@@ -281,6 +282,119 @@ func c06ReReg(c *core.Ctx) {
 			}
 		}
 		c.Outcome(fmt.Sprintf("re-registered/ok/providers=%d", len(cs.Pop)))
+		c.Sample(map[string]any{"case": cs})
+	})
+}
+
+// ---- func points with returns=* select by the presence of the method alone: methods that take
+// parameters (also variadic ones) expose it like parameterless ones
+
+type c6FI interface{ FID() string }
+
+type c6FPlain struct{ id string }
+
+func (p *c6FPlain) FID() string    { return p.id }
+func (p *c6FPlain) Naming() string { return p.id }
+func (p *c6FPlain) Handle() string { return "A" }
+
+type c6FParam struct{ id string }
+
+func (p *c6FParam) FID() string         { return p.id }
+func (p *c6FParam) Naming() string      { return p.id }
+func (p *c6FParam) Handle(n int) string { return "A" }
+
+type c6FVariadic struct{ id string }
+
+func (p *c6FVariadic) FID() string                { return p.id }
+func (p *c6FVariadic) Naming() string             { return p.id }
+func (p *c6FVariadic) Handle(xs ...string) string { return "A" }
+
+type c6FNone struct{ id string }
+
+func (p *c6FNone) FID() string    { return p.id }
+func (p *c6FNone) Naming() string { return p.id }
+
+type c6FHolder struct {
+	All []c6FI `func:"Handle,returns=*,required=false"`
+	One c6FI   `func:"Handle,returns=*,required=false"`
+}
+
+type c6FuncStarCase struct {
+	Mask int  `json:"providers_mask"` // bit 0 plain, 1 with a parameter, 2 variadic, 3 without the method
+	Desc bool `json:"descending_order,omitempty"`
+}
+
+func c06FuncStar(c *core.Ctx) {
+	gen := func(yield func(c6FuncStarCase) bool) {
+		for m := 1; m < 16; m++ {
+			for _, desc := range []bool{false, true} {
+				if !yield(c6FuncStarCase{m, desc}) {
+					return
+				}
+			}
+		}
+	}
+	Cases(c, gen, func(c *core.Ctx, cs c6FuncStarCase) {
+		h := &c6FHolder{}
+		comps := []any{h}
+		user := map[string]bool{}
+		var want, base []string
+		add := func(id string, o any, has bool) {
+			comps = append(comps, o)
+			user[id] = true
+			base = append(base, id)
+			if has {
+				want = append(want, id)
+			}
+		}
+		if cs.Mask&1 != 0 {
+			add("f-plain", &c6FPlain{"f-plain"}, true)
+		}
+		if cs.Mask&2 != 0 {
+			add("f-param", &c6FParam{"f-param"}, true)
+		}
+		if cs.Mask&4 != 0 {
+			add("f-variadic", &c6FVariadic{"f-variadic"}, true)
+		}
+		if cs.Mask&8 != 0 {
+			add("f-none", &c6FNone{"f-none"}, false)
+		}
+		sort.Strings(base)
+		if cs.Desc {
+			sort.Sort(sort.Reverse(sort.StringSlice(base)))
+		}
+		o := scen.Start(scen.StartSpec{Ch: envx.Fixed("", nil), Comps: comps, User: user, Base: base})
+		c.S.Evaluations++
+		c.S.Programs++
+		c.S.States++
+		c.S.Nontrivial++
+		c.S.Transitions += int64(o.Trace.Calls)
+		key := "C06/func-star/" + core.Hash(cs)
+		desc := fmt.Sprintf("func:\"Handle,returns=*\" points, providers %v expose Handle (with and without parameters)", want)
+		if !o.OK() {
+			c.Outcome("func-star/start-failed")
+			c.Report(key, "spurious-error", desc+": every point is optional but start-up did not succeed: "+scen.FirstLine(o.Err)+o.Panic+o.Abort, cs)
+			return
+		}
+		var got []string
+		for _, x := range h.All {
+			got = append(got, x.FID())
+		}
+		sort.Strings(got)
+		sort.Strings(want)
+		switch {
+		case fmt.Sprint(got) != fmt.Sprint(want):
+			c.Outcome("func-star/slice-differs")
+			c.Report(key, "slice-mismatch", fmt.Sprintf("%s: the slice point holds %v", desc, got), cs)
+		case len(want) > 0 && h.One == nil:
+			c.Outcome("func-star/single-empty")
+			c.Report(key, "wrong-or-missing", desc+": the single-valued point is empty", cs)
+		case h.One != nil && !strings.Contains(" "+strings.Join(want, " ")+" ", " "+h.One.FID()+" "):
+			c.Outcome("func-star/single-inadmissible")
+			c.Report(key, "inadmissible", fmt.Sprintf("%s: the single-valued point holds %s", desc, h.One.FID()), cs)
+		default:
+			c.Outcome(fmt.Sprintf("func-star/ok/%d", len(want)))
+		}
 		c.Sample(map[string]any{"case": cs})
 	})
 }
